@@ -15,6 +15,7 @@ KNOWN-FINDING iff MetaGrammar with the *listed* Tx clauses predicts exactly both
 from __future__ import annotations
 
 import json
+import os
 import random
 from concurrent.futures import ThreadPoolExecutor
 
@@ -24,6 +25,12 @@ from ..drive import metagrammar as mg
 PID = "C24"
 TX_DEVS = ["TxNoRulesOk", "TxRrelRequired", "TxFlagOnlyM", "TxNoFixedName", "TxModifiersNotMixed",
            "TxIdentIsID", "TxBuiltinPrefix"]
+
+
+def _open_findings():
+    """The listed open findings; VT_FINDINGS_OFF=1 tries none (to confirm repairs: every
+    former KNOWN-FINDING case must then pass, or it is a VIOLATION)."""
+    return [] if os.environ.get("VT_FINDINGS_OFF") else common.open_findings(PID)
 
 
 def _judge_one(rep, c, o, r, fid_of):
@@ -49,7 +56,7 @@ def _judge_one(rep, c, o, r, fid_of):
 def run(rep):
     quick = rep.tier == "quick"
     rng = random.Random(rep.seed)
-    findings = common.open_findings(PID)
+    findings = _open_findings()
     fid_of = {f["deviation"]: f["id"] for f in findings if f["deviation"] in TX_DEVS}
     rep.rule = ("corpus = every token sequence TLC derives from MetaGrammar's productions within the budgets "
                 "(grammar skeleton budget, link / modifier / parameter phrases in a canonical host) + one-token "
@@ -149,7 +156,7 @@ def replay(path):
     c = dict(id="replay", kind="replay", toks=case["toks"])
     if case.get("text") is not None:
         c["text"] = case["text"]
-    findings = common.open_findings(PID)
+    findings = _open_findings()
     fid_of = {f["deviation"]: f["id"] for f in findings if f["deviation"] in TX_DEVS}
     o = mg.observe_one(c, ("lang", "tx"))
     orc, _ = mg.oracle([c], sorted(fid_of))
